@@ -216,6 +216,41 @@ func generate(r *simkit.Rand, prop string) *simkit.Plan {
 		}
 		p.Steps = append(p.Steps, simkit.Step{Op: "epoch", B: []simkit.HexBytes{rnd}, I: []int64{noise}})
 
+		// competing epoch-start candidates: some nodes prepare candidate A (and compute groups on it), then a
+		// competing block B for the same epoch appears, which is the one that becomes final
+		var candSamples []simkit.Step
+		pCand := 0.2
+		if prop == "C15" || prop == "C16" {
+			pCand = 0.4
+		}
+		if p.Arm != "faultfree" && r.Chance(pCand) {
+			sawA := 0
+			for n := 0; n < nodes; n++ {
+				if r.Chance(0.6) || (n == nodes-1 && sawA == 0) {
+					sawA++
+					seedA := int64(0)
+					if r.Chance(0.5) {
+						seedA = int64(r.Intn(1<<30) + 1)
+					}
+					p.Steps = append(p.Steps, simkit.Step{Op: "prepare", T: n, I: []int64{seedA}})
+					if r.Chance(0.1) {
+						p.Steps = append(p.Steps, simkit.Step{Op: "restart", T: n, I: []int64{0}})
+					}
+				}
+			}
+			for i := r.Range(1, 3); i > 0; i-- {
+				st := simkit.Step{Op: "sample", B: []simkit.HexBytes{r.Bytes(r.Range(1, 16))}, I: []int64{int64(r.Intn(6)), int64(r.Intn(shards + 1))}}
+				p.Steps = append(p.Steps, st)
+				candSamples = append(candSamples, st)
+			}
+			p.Steps = append(p.Steps, simkit.Step{Op: "candidate", B: []simkit.HexBytes{r.Bytes(r.Range(4, 32))}})
+			if r.Chance(0.15) { // a third candidate
+				p.Steps = append(p.Steps, simkit.Step{Op: "prepare", T: r.Intn(nodes), I: []int64{0}})
+				p.Steps = append(p.Steps, candSamples[0])
+				p.Steps = append(p.Steps, simkit.Step{Op: "candidate", B: []simkit.HexBytes{r.Bytes(r.Range(4, 32))}})
+			}
+		}
+
 		// delivery schedule
 		queues := make([][]simkit.Step, nodes)
 		for n := 0; n < nodes; n++ {
@@ -313,6 +348,10 @@ func generate(r *simkit.Rand, prop string) *simkit.Plan {
 			continue
 		}
 		queues = append(queues, extra)
+		if len(candSamples) > 0 {
+			// the same group questions again, first among the deliveries of the final candidate ...
+			queues = append(queues, append([]simkit.Step(nil), candSamples...))
+		}
 		for {
 			var live []int
 			for i, q := range queues {
@@ -327,6 +366,8 @@ func generate(r *simkit.Rand, prop string) *simkit.Plan {
 			p.Steps = append(p.Steps, queues[i][0])
 			queues[i] = queues[i][1:]
 		}
+		// ... and once more after them
+		p.Steps = append(p.Steps, candSamples...)
 	}
 	if p.Arm == "diskfaults" {
 		p.Faults = []string{"put_error", "get_error"}
